@@ -1621,6 +1621,7 @@ def rule_one_length(res, rid, m):
         raise Broken("Packet::getPayloadLength not found")
     fields = {fl["qname"] for fl in m.fb.record(PKT)["fields"]}
     stale = []
+    changed = []
     asks = False
     for r in gpl.returns():
         e = r.get("e")
@@ -1631,12 +1632,37 @@ def rule_one_length(res, rid, m):
         other = sorted(x for x in d if x in fields and not x.endswith("::payload"))
         if other or not any(x.endswith("Payload::getLength") for x in c):
             stale.append((r, other))
+            continue
+        # ... and hands the answer on as it is (the conversion to the 16-bit return type aside): a clamp, a mask or arithmetic in between makes
+        # the announced total differ from the bytes the payload has
+        def alts(x):
+            x = strip_all_casts(x)
+            if x.get("k") == "cond":
+                return alts(x["a"]) + alts(x["b"])
+            return [x]
+        getter = [x for x in c if x.endswith("Payload::getLength")][0]
+        for a9 in alts(facts.expand(gpl, e)):
+            if const_value(a9) == 0:
+                continue
+            if a9.get("k") == "call" and callee_name(a9) == "std::min" and len(a9.get("args", [])) == 2:
+                # saturation at (or above) the largest length the property's domain has leaves every value of the domain as it is
+                xs9 = [strip_all_casts(z) for z in a9["args"]]
+                keep = [z for z in xs9 if const_value(z) is None]
+                lim = [const_value(z) for z in xs9 if const_value(z) is not None]
+                if len(keep) == 1 and len(lim) == 1 and lim[0] >= 65535 and facts.flows_unchanged(gpl, keep[0], getter):
+                    continue
+            if not facts.flows_unchanged(gpl, a9, getter):
+                changed.append((r, a9))
     res.check(asks and not stale, rid, "length:source", (stale[0][0].get("loc") if stale else gpl.loc),
               "Packet::getPayloadLength() asks the payload object for its length on every call",
               "Packet::getPayloadLength() answers from %s instead of asking the payload object: after the payload was changed in place through "
               "getPayload() the encoder announces and walks a length the payload does not have — bytes are dropped or bytes that belong to no "
               "packet are copied" % (", ".join(x.split("::")[-1] for x in (stale[0][1] if stale else [])) or "something else"))
-    return 5
+    res.check(not changed, rid, "length:source-unchanged", (changed[0][0].get("loc") if changed else gpl.loc),
+              "Packet::getPayloadLength() hands the payload's own length on unchanged",
+              "Packet::getPayloadLength() does not hand the payload's length on as it is (`%s`): for some payloads the encoder announces and walks a "
+              "total that differs from the bytes the payload has — the rest appears in no frame" % (canon(changed[0][1])[:90] if changed else ""))
+    return 6
 
 
 def rule_header_tables_agree(res, rid, m):
